@@ -31,6 +31,10 @@ struct Conn {
     sent_since_rx: bool,
     remote_port: u16,
     rx_seen: BTreeSet<(Space, u64)>,
+    /// a Handshake-space packet carrying CRYPTO data was declared lost at this endpoint
+    /// after its own handshake had completed, and no CRYPTO frame left in that space since
+    hs_crypto_sent: BTreeSet<u64>,
+    hs_crypto_lost_unrepaired: bool,
 }
 
 pub struct C02 {
@@ -181,6 +185,10 @@ impl Monitor for C02 {
             }
         }
         let c = self.conns.entry((p.ep, p.conn)).or_default();
+        if p.space == Space::Handshake && p.frames.iter().any(|f| matches!(f, Frame::Crypto { .. })) {
+            c.hs_crypto_sent.insert(p.pn);
+            c.hs_crypto_lost_unrepaired = false;
+        }
         if p.ack_eliciting() && !c.sent_since_rx {
             // RFC 9000 10.1: the idle timer also restarts when the first ack-eliciting packet
             // after the last received one is sent
@@ -220,6 +228,11 @@ impl Monitor for C02 {
                 c.remote_port = *remote_port;
             }
             Evt::PeerParams(pp) => c.peer_idle_ms = Some(pp.max_idle_timeout_ms),
+            Evt::PacketLost { space: Space::Handshake, pn, .. } => {
+                if c.handshake_complete && c.hs_crypto_sent.contains(pn) {
+                    c.hs_crypto_lost_unrepaired = true;
+                }
+            }
             Evt::Handshake { status } => {
                 if *status == "complete" || *status == "confirmed" {
                     c.handshake_complete = true;
@@ -320,9 +333,16 @@ impl Monitor for C02 {
         if self.mode == 1 {
             cx.summary.count("c02.must_deliver_runs", 1);
             if !self.errors.is_empty() {
+                // One way to get here is known (known_findings.jsonl): a client whose Finished
+                // was lost cannot retransmit it because its congestion window is taken by the
+                // 1-RTT packets it sent at once (which the server cannot process before it has
+                // the Finished, and which have no probe timer before the handshake is
+                // confirmed). Told apart by what was observed, not by the error text.
+                let finished_stuck = self.conns.iter().any(|((ep, _), c)| *ep != SERVER && c.hs_crypto_lost_unrepaired)
+                    && self.conns.iter().any(|((ep, _), c)| *ep == SERVER && matches!(c.close, Some(CloseKind::MaxHandshakeDuration)));
                 cx.violate(
                     "C02",
-                    "must-deliver:error",
+                    if finished_stuck { "must-deliver:error:client-finished-not-retransmitted" } else { "must-deliver:error" },
                     format!(
                         "the network healed after a finite fault period and timeouts are >= 4x that period, yet operations failed: {}",
                         self.errors.iter().take(5).cloned().collect::<Vec<_>>().join("; ")
